@@ -7,7 +7,7 @@ let () =
   let one f c r = match f c r with None -> [] | Some x -> [x] in
   let eval, oracle = match domain with
     | "semver" -> D_semver.eval, one D_semver.oracle
-    | "ranges" | "rangeord" | "rangeq" -> D_ranges.eval, one D_ranges.oracle
+    | "ranges" | "rangeord" | "rangeq" -> D_ranges.eval, D_ranges.oracles
     | "terms" | "bitset" -> D_terms.eval, one D_terms.oracle
     | "offline" -> D_offline.eval, one D_offline.oracle
     | "serde" -> D_serde.eval, one D_serde.oracle
